@@ -47,16 +47,40 @@ def srcStep (s : Src α) : Step α × Src α :=
 
 def src : IM (Src α) α := ⟨srcStep⟩
 
-/-- `iterator.Counter(n)`: state `i`. -/
+/-- `counterIterator.Next`: state `i`, limit `n`; the yielded item is the regenerated `iter.i`. -/
 def counter (n : Int) : IM Int Int :=
-  ⟨fun i => if itCounterDone i n then (.done, i) else (.item i, if itCounterAdvances then i + 1 else i)⟩
+  ⟨fun i => if itCounterDone i n then (.done, i) else (.item (itCounterItem i n), if itCounterAdvances then i + 1 else i)⟩
 
-/-- `iterator.Repeat(item, n)`: state `x`. -/
+/-- `iterator.Counter(n)` = `&counterIterator{i: 0, n: n}`: the machine (its limit) and its first state,
+both from the regenerated field initialisers -/
+def counterOf (n : Int) : IM Int Int := counter (itCounterInitN n)
+def counterInit (n : Int) : Int := itCounterInitI n
+
+/-- `repeatIterator.Next`: state `x`. -/
 def repeat_ (a : α) : IM Int α :=
   ⟨fun x => if itRepeatDone x then (.done, x) else (.item a, if itRepeatDecrements then x - 1 else x)⟩
 
-/-- `iterator.Empty()`. -/
-def empty : IM Unit α := ⟨fun u => (.done, u)⟩
+/-- `iterator.Repeat(item, n)` = `&repeatIterator{item: item, x: n}` -/
+def repeatInit (n : Int) : Int := itRepeatInitX n
+
+/-- `iterator.Empty()`: `return zero, false` (the regenerated second result; `true` would be an iterator
+that yields zero values for ever: it never answers). -/
+def empty : IM Unit α := ⟨fun u => if itEmptyOk then (.skip, u) else (.done, u)⟩
+
+/-- `iterator.Chan(c)`: `buf` = what the channel holds, `closed` = it was closed. `Next` is
+`item, ok := <-iter.c; return item, ok` (the regenerated statement list): the next buffered value; on a
+closed and drained channel `(zero, false)`; a receive from an empty open channel blocks (`skip` for ever). -/
+structure ChanSt (α : Type v) where
+  buf : List α
+  closed : Bool := true
+
+def chan : IM (ChanSt α) α :=
+  ⟨fun st =>
+    if itChanBody = ["item, ok := <-iter.c", "return item, ok"] then
+      match st.buf with
+      | a :: r => (.item a, { st with buf := r })
+      | [] => if st.closed then (.done, st) else (.skip, st)
+    else (.skip, st)⟩
 
 /-! ## Peekable -/
 
@@ -125,6 +149,14 @@ def compact (eq : α → α → Bool) (m : IM σ α) : IM (CompactSt σ α) α :
     | (.skip, s') => (.skip, { st with inner := s' })
     | (.done, s') => (.done, { st with inner := s' })⟩
 
+/-- `iterator.CompactFunc(iter, eq)` = `&compactIterator{inner: iter, first: true, eq: eq}` -/
+def compactInit (s : σ) : CompactSt σ α := { inner := s, first := itCompactInitFirst, prev := none }
+
+/-- `iterator.Compact(iter)` = `CompactFunc(iter, func(a, b T) bool { return a == b })` (regenerated body,
+`CompactFunc` as a parameter) -/
+def compactEq [BEq α] (m : IM σ α) : IM (CompactSt σ α) α :=
+  itCompactW (fun (m : IM σ α) (eq : α → α → Bool) => compact eq m) m
+
 def filter (keep : α → Bool) (m : IM σ α) : IM σ α :=
   ⟨fun s =>
     match m.step s with
@@ -150,6 +182,9 @@ def first (m : IM σ α) : IM (FirstSt σ) α :=
       match m.step st.inner with
       | (.skip, s') => (.skip, { inner := s', x := x', inCall := true })
       | (r, s') => (r, { inner := s', x := x', inCall := false })⟩
+
+/-- `iterator.First(iter, n)` = `&firstIterator{inner: iter, x: n}` -/
+def firstInit (s : σ) (n : Int) : FirstSt σ := { inner := s, x := itFirstInitX n }
 
 /-- `flattenIterator{inner, curr}`; the outer iterator yields states of the inner machine `mi`. -/
 structure FlattenSt (σ : Type u) (τ : Type w) where
@@ -202,6 +237,9 @@ def while_ (f : α → Bool) (m : IM σ α) : IM (WhileSt σ) α :=
         else (.item a, { st with inner := s' })
       | (.skip, s') => (.skip, { st with inner := s' })
       | (.done, s') => (.done, { st with inner := s' })⟩
+
+/-- `iterator.While(iter, f)` = `&whileIterator{inner: iter, f: f, done: false}` -/
+def whileInit (s : σ) : WhileSt σ := { inner := s, done := itWhileInitDone }
 
 /-! ## Runs: one machine with an outer port and inner ports sharing the peekable -/
 
@@ -293,9 +331,10 @@ def reduce (m : IM σ α) (f : β → α → β) : Nat → β → σ → Option 
     | (.skip, s') => reduce m f fuel acc s'
     | (.done, s') => (some acc, s')
 
-/-- `iterator.Collect` (= `Reduce` with append). -/
+/-- `iterator.Collect(iter)` = `Reduce(iter, nil, func(out []T, item T) []T { return append(out, item) })`
+(regenerated body; `Reduce`, `nil` and `append` as parameters). -/
 def collect (m : IM σ α) (fuel : Nat) (s : σ) : Option (List α) × σ :=
-  reduce m (fun (acc : List α) a => acc ++ [a]) fuel [] s
+  itCollectW (fun (s : σ) (init : List α) (f : List α → α → List α) => reduce m f fuel init s) [] (fun acc a => acc ++ [a]) s
 
 inductive Outcome (ρ : Type v) where
   | ok (r : ρ)
